@@ -211,7 +211,8 @@ class Tracks:
                 # Multiple position attributes (one per axis)
                 multi_position_key = list(pos_attr)
                 for attr in pos_attr:
-                    features[attr] = {
+                    # register on the FeatureDict itself (it holds a copy of `features`)
+                    feature_dict[attr] = {
                         "feature_type": "node",
                         "value_type": "float",
                         "num_values": 1,
